@@ -317,6 +317,13 @@ SuffixRules(e) ==
       }
     [] e.op = "suffixcfg" -> SortRules(e, "DRIFT09")
     [] e.op = "suffixstages" -> StageRules(e)
+    [] e.op = "lcplcs" ->
+      (* lcp / lcs of bytes.go against their definitions (WordOps.tla has the *)
+      (* word-wise transcription; its predictions are compared as DRIFT)      *)
+      LET RECURSIVE dl(_), ds(_)
+          dl(k) == IF k >= Len(e.p) \/ k >= Len(e.q) \/ e.p[k + 1] # e.q[k + 1] THEN k ELSE dl(k + 1)
+          ds(k) == IF k >= Len(e.p) \/ k >= Len(e.q) \/ e.p[Len(e.p) - k] # e.q[Len(e.q) - k] THEN k ELSE ds(k + 1)
+      IN { <<"DRIFT19.lcp", e.lcp = dl(0)>>, <<"DRIFT19.lcs", e.lcs = ds(0)>> }
     [] e.op = "trsort" ->
       (* the real trSort on an input enumerated by TrSortMC: TLC runs the    *)
       (* transcription (TrSortImpl.tla) on the recorded input                *)
@@ -363,7 +370,7 @@ SuffixRules(e) ==
                   <<"C10.lcp_untouched", e.lcp_after = e.lcp>> }
     [] e.op = "panic" ->
       IF e.in = "segments" THEN { <<"C10.no_panic", FALSE>> }
-      ELSE IF e.in \in {"suffixcfg", "suffixstages", "trcopy", "sortprim", "trsort"} THEN { <<"DRIFT09.no_panic", FALSE>> }
+      ELSE IF e.in \in {"suffixcfg", "suffixstages", "trcopy", "sortprim", "trsort", "lcplcs"} THEN { <<"DRIFT09.no_panic", FALSE>> }
       ELSE { <<"C09.no_panic", FALSE>> }
     [] e.op = "timeout" ->
       IF e.in = "segments" THEN { <<"C10.no_hang", FALSE>> } ELSE { <<"C09.no_hang", FALSE>> }
